@@ -35,6 +35,9 @@ func (s TxSpec) fee() sdk.Coins {
 	return coins(s.Fee)
 }
 
+// SignedFee is the fee that went into the signed document.
+func (s TxSpec) SignedFee() sdk.Coins { return s.fee() }
+
 // Build signs and encodes. It returns the encoded bytes, the final StdTx and the bytes that were signed.
 func (s TxSpec) Build(cdc *codec.Codec) (bz []byte, tx authTypes.StdTx, signed []byte) {
 	cid := s.ChainID
